@@ -389,6 +389,13 @@ func (s *stream) closeAllStreams() {
 					"cannot close stream on (stream end not supporting) mode, vbID: %d, err: %v",
 					vbID, err,
 				)
+
+				// no stream end follows a close request that failed: take the token back,
+				// otherwise the next iteration blocks on the queue for ever
+				select {
+				case <-s.streamEndNotSupportedData.queue:
+				default:
+				}
 			}
 		}
 		s.streamEndNotSupportedData.ending = false
